@@ -43,8 +43,8 @@ def _one_packet(b, p, n, have_earlier):
             if tag == 4 and not partial:
                 ln = 13     # one-pass signature packets have a fixed size; readers do not use the declared length
             if p + ln > n:
-                # a reader that consumes the fields it needs does not notice an over-long declared length on the only packet
-                if have_earlier or partial or p >= n:
+                # a reader that consumes the fields it needs does not notice an over-long declared length on the last packet
+                if partial or p >= n:
                     raise PgpError("packet body overruns data")
                 ln = n - p
             chunks.append((p, p + ln))
@@ -72,7 +72,7 @@ def _one_packet(b, p, n, have_earlier):
     if tag == 4:
         ln = 13         # one-pass signature packets have a fixed size; readers do not use the declared length
     if p + ln > n:
-        if have_earlier or p >= n:
+        if p >= n:
             raise PgpError("packet body overruns data")
         ln = n - p
     return p + ln, (tag, [(p, p + ln)], None, h)
@@ -155,7 +155,7 @@ def dearmor(txt, kind=b"PGP SIGNATURE"):
     """returns (binary, span of the base64 body inside txt). The optional CRC-24 line and armor headers are not content."""
     # the END line only terminates the body; the base64 data is self-delimiting (padding / CRC line), so a damaged END line is framing
     # (the armor type named on the BEGIN line is a label; readers take whatever block follows)
-    m = re.search(rb"-----BEGIN [^\r\n]*?-----[ \t]*\r?\n(.*?)(?:\r?\n-----END [^\r\n]*-----|\r?\n-[^\n]*\Z|\Z)", txt, flags=re.S)
+    m = re.search(rb"-----BEGIN [^\r\n]*\r?\n(.*?)(?:\r?\n-----END [^\r\n]*-----|\r?\n-[^\n]*\Z|\Z)", txt, flags=re.S)
     if not m:
         raise PgpError("no armor")
     inner = m.group(1)
@@ -239,7 +239,10 @@ def inline_view(b):
         raw = maybe_dearmor(b, b"PGP MESSAGE")
         pk = read_packets_prefix(raw)
         lit, sigs = None, []
+        end_of_message = None
         for p in pk:
+            if sigs and lit is not None:
+                break           # the message is complete with the signature that follows the literal data
             if p[0] == 11:
                 d = body(raw, p)
                 if len(d) < 6:
@@ -248,6 +251,7 @@ def inline_view(b):
                 lit = (d[2 + fl + 4:],) if lit is None else ("dup",)        # format octet, file name and date are not hashed
             elif p[0] == 2:
                 sigs.append(sig_view(body(raw, p))[0])
+                end_of_message = p[1][-1][1]
             elif p[0] == 4:
                 pass
             elif p[0] == 8:
@@ -256,7 +260,8 @@ def inline_view(b):
                 raise PgpError("unexpected packet %d" % p[0])
         if lit is None or not sigs:
             return None
-        return ("pgp-inline", lit, tuple(sigs))
+        # anything after the message is outside the signature; a consumer that processes it (a second message) must not be told "OK"
+        return ("pgp-inline", lit, tuple(sigs), bytes(raw[end_of_message:]))
     except (PgpError, IndexError, struct.error):
         return None
 
